@@ -24,7 +24,7 @@ def decodeBatchRecords (mk : Alloc) (c : Cfg) (batch : Bytes) : GoResult (List D
       if recordCount ≤ 0 then .ok []
       else do
         let recordsData ← goSlice batch 61 batch.length
-        if c.guard && recordCount > recordsData.length then .err
+        if c.guard && countExceeds c recordCount recordsData.length then .err
         else do
           mk recordCount recSize
           decodeRecords mk c (toS64 (beDec bo)) (toS64 (beDec ft)) recordCount.toNat recordsData
